@@ -1,4 +1,5 @@
 import LiquidVerif.Lemmas.LoopLimit
+import LiquidVerif.Lemmas.LoopLimitModes
 /-!
 # C06 — the loop iteration limit bounds nested iteration
 
@@ -111,6 +112,44 @@ the model never reads it, so the theorems above speak about the mechanism itself
 theorem ghost_erasure (E : Env) (c : Cx) (m : Macros) (nodes : List Node) (g : List Nat) :
     erase (renderList E { c with ghost := g } m nodes) = erase (renderList E c m nodes) :=
   (erase_aux E).2.2.1 c m nodes g
+
+/-! ## Deepening round: the limit `0`, every error mode, `break` / `continue` -/
+
+/-- **The deviation behind the hypothesis `N ≠ 0`.** Read literally, a configured limit of `0` would forbid every block
+(the empty product is 1 > 0); the code's `if limit and …` treats `0` like `None`, so the bound fails for `N = 0`
+already on a single mark. `loop_product_bounded` is the statement for the limits the property quantifies over (1..200);
+`no_limit_never_raises` says what the code does instead. (C08 lists the same falsy test as a known finding.) -/
+theorem loop_product_bounded_limit_zero_counterexample :
+    ¬ (∀ (nodes : List Node) (m : Macros) (tr : List Ev),
+        renderTemplate ⟨some 0, 30, []⟩ nodes = .ok (m, tr) → ∀ e ∈ tr, prod e.enclosing ≤ 0) := by
+  intro h
+  have h1 := h [.mark 1] [] [⟨1, []⟩] (by simp [renderTemplate, renderList, render, seqRes]) ⟨1, []⟩ (by simp)
+  simp [prod, reduceMul] at h1
+
+/-- **Sentence 1 in every error mode, with `break` and `continue`** (model `LoopLimitModes`): whatever the mode
+(STRICT, or LAX/WARN where `render_with_context` swallows a node's error and goes on with the next top-level node),
+whether the render completes, aborts or continues after suppressed errors, and however loops are cut short by
+interrupts travelling through `if` blocks, included partials and macro bodies — no block is ever executed while the
+product of the true lengths of all enclosing repeating constructs exceeds the limit `N ≥ 1`. -/
+theorem loop_product_bounded_all_modes (E : LoopLimitModes.Env) (N : Nat) (hl : E.limit = some N) (hN : N ≠ 0)
+    (nodes : List LoopLimitModes.Node) :
+    ∀ e ∈ (LoopLimitModes.renderTemplate E nodes).tr, prod e.enclosing ≤ N := by
+  unfold LoopLimitModes.renderTemplate
+  simp only []
+  split
+  · intro e he; simp [LoopLimitModes.fail] at he
+  · exact (LoopLimitModes.bounded_aux E N hl hN).2.2.1 _ _ _ _ (by simp [GhostInv, Cx.measured]) (by simp; omega)
+
+/-- In LAX / WARN mode the render itself never raises (with the default `context_depth_limit ≥ 4`): a
+`LoopIterationLimitError` can only be *suppressed* there — it cuts the offending top-level node short and the render
+goes on. Together with the theorem above: suppressed or raised, the bound on executed blocks holds. -/
+theorem lax_render_completes (E : LoopLimitModes.Env) (hs : E.strict = false) (hd : 4 ≤ E.depth)
+    (nodes : List LoopLimitModes.Node) : (LoopLimitModes.renderTemplate E nodes).sig = .normal := by
+  unfold LoopLimitModes.renderTemplate
+  simp only []
+  split
+  · omega
+  · exact LoopLimitModes.renderNodes_lax_sig E hs _ _ _
 
 /-! ## Non-vacuity: the hypotheses are met by concrete nests, on both sides of the limit -/
 
